@@ -233,9 +233,12 @@ def brokerCmd (st : BState) (cmd : String) (args : List String) : Option (BState
     match Broker.step st.b st.w ev with
     | .error p => pure (st, panicText p)
     | .ok (b, w, outs) =>
+      -- a turn that removes a connection walks that connection's hash maps and sets; which of its notifications
+      -- comes first is then not defined by the code (the comparison sorts the messages of such a turn)
+      let removed := b.conns.length < st.b.conns.length
       let st := { st with b := b, w := w }
       let (st, txt) := renderOuts st outs
-      pure (st, s!"fin={if finished b w then 1 else 0}" ++ txt)
+      pure (st, s!"fin={if finished b w then 1 else 0}" ++ txt ++ (if removed then " #rm" else ""))
   | "bstats", [] =>
     let s := st.b.stats
     some ({ st with b := { st.b with stats := { s with messagesSent := 0, messagesReceived := 0 } } },
